@@ -7,6 +7,7 @@ import KyupyVerif.Proofs.SubstituteRes
 import KyupyVerif.Proofs.SubstSem9
 import KyupyVerif.Proofs.SubstResolve
 import KyupyVerif.Proofs.SubstSem10
+import KyupyVerif.Proofs.SubstGen17
 /-! # C10 — copy, pickle, fork elimination and cell substitution preserve function
 
 Objects of the theorems: the hand-written models `KV.Transform` of `Circuit.copy`, `__getstate__/__setstate__`,
@@ -902,5 +903,129 @@ example : exHost.wf = true ∧ resolveOKB [("AOCELL", exImpl)] exHost.keys exHos
 example : exHost.wf = true ∧ (exHost.net.io.all fun i => (Lib.find [("AOCELL", exImpl)] (exHost.net.node i).kind).isNone) = true ∧
     (resolveCells [("AOCELL", exImpl)] exHost).map (fun r => (r.net.nodes.size, r.ioNames)) = some (11, ["a", "b", "z", "q"]) := by
   decide +kernel
+
+/-! ## the general semantic statement about `substitute` (ignored input pins, implementations without designated cell) -/
+
+/-- **the general semantic statement about `substitute`** (conclusion of `substitute_sem_general`).  `substitute` may remove things: the host
+    line at an instance pin that the implementation ignores (`Line.remove()`, the last line takes its index), the instance
+    itself when the implementation has no designated cell (`Node.remove()`, the last node takes its index), dangling logic
+    behind an unconnected output.  Host line / node indices are therefore not stable, and the statement is along **index maps**
+    `R` (as `elim_sem` / `remove_dangling_sem`): `R.node j'` / `R.line l'` = the *canonical index* of node `j'` / line `l'` of the
+    result `h'`, where a host node or line has its index in `h`, the copy of implementation node `j` has index `map[j]`
+    (`node_map`: `c` for the designated cell, indices behind the host's nodes for the others) and the copy of the `t`-th copied
+    implementation line (`copiedLines m map`) has index `h.lines.size + t`; `glueV h m map v vm` = the labelling of the
+    canonical indices made of a host labelling `v` and an implementation labelling `vm`.
+    * `h'` is well-formed up to trailing `None`s; `R` is injective on nodes and on lines; ports are kept in order;
+    * every host node other than the cell survives, with kind, name and (pin by pin, renamed) the same input lines; every
+      flip-flop / latch of the implementation survives; only host lines that END AT THE CELL can disappear (the lines at
+      ignored pins, lines into removed dangling logic); a surviving host line not driven by the cell keeps its driver (and
+      its driver pin, unless the driver is a fork, whose outputs `Line.remove()` squeezes);
+    * **(1)** every labelling `(an', v')` of `h'` that is consistent outside `S` (any set of host nodes other than the cell,
+      read through `R`) comes from a labelling `(an, v)` of the WHOLE host that is consistent outside `S ∪ {c}` and a labelling
+      `(anm, vm)` of the implementation with `ImplMatches h c m sh anm vm v` (the cell means its implementation), `v'` being
+      the restriction of `glueV … v vm` along `R`; the values of the removed host lines that are driven by a hole in `S`
+      can be prescribed (`pre`) — no equation constrains them (used by `resolve_sem_general`, where a removed line may be
+      driven by a cell that is substituted later);
+    * **(2)** conversely every such pair glues and restricts to a labelling of `h'` consistent outside `S`. -/
+def SubstGenStmt {α : Type _} (h m h' : NNet) (c : Nat) (z : α) (neg : α → α) (prim : String → α → α → α → α → α) : Prop :=
+    ∃ (sh : Shape) (map : Array (Option Nat)) (R : Ren),
+      implShape m = some sh ∧ h'.wfNoTrail = true ∧
+      -- `node_map`
+      (∀ j x, map.getD j none = some x → j < m.net.nodes.size ∧ (x = c ∨ h.net.nodes.size ≤ x)) ∧
+      (∀ j1 j2 x, map.getD j1 none = some x → map.getD j2 none = some x → j1 = j2) ∧
+      -- the index maps
+      (∀ j1 j2, j1 < h'.net.nodes.size → j2 < h'.net.nodes.size → R.node j1 = R.node j2 → j1 = j2) ∧
+      (∀ l1 l2, l1 < h'.net.lines.size → l2 < h'.net.lines.size → R.line l1 = R.line l2 → l1 = l2) ∧
+      (∀ l', l' < h'.net.lines.size → R.line l' < h.net.lines.size + (copiedLines m map).length) ∧
+      h'.net.io.map R.node = h.net.io ∧
+      (∀ j', j' < h'.net.nodes.size → R.node j' < h.net.nodes.size → R.node j' ≠ c →
+        (h'.net.node j').kind = (h.net.node (R.node j')).kind ∧ h'.names.getD j' "" = h.names.getD (R.node j') "" ∧
+        ∀ k, ((h'.net.node j').inPin k).map R.line = (h.net.node (R.node j')).inPin k) ∧
+      (∀ j x j', map.getD j none = some x → j' < h'.net.nodes.size → R.node j' = x →
+        (h'.net.node j').kind = if j ∈ m.net.io then "__fork__" else (m.net.node j).kind) ∧
+      -- what survives
+      (∀ d, d < h.net.nodes.size → d ≠ c → ∃ j', j' < h'.net.nodes.size ∧ R.node j' = d) ∧
+      (∀ j x, map.getD j none = some x → isSeqKind (if j ∈ m.net.io then "__fork__" else (m.net.node j).kind) = true →
+        ∃ j', j' < h'.net.nodes.size ∧ R.node j' = x) ∧
+      (∀ l, l < h.net.lines.size → (h.net.line l).reader ≠ c → ∃ l', l' < h'.net.lines.size ∧ R.line l' = l) ∧
+      (∀ l', l' < h'.net.lines.size → R.line l' < h.net.lines.size → (h.net.line (R.line l')).driver ≠ c →
+        R.node (h'.net.line l').driver = (h.net.line (R.line l')).driver ∧
+        ((h'.net.line l').dpin = (h.net.line (R.line l')).dpin ∨ (h.net.node (h.net.line (R.line l')).driver).isFork = true)) ∧
+      -- (1) result ⇒ host with the cell meaning its implementation
+      (∀ (S : Nat → Prop), (∀ s, S s → s < h.net.nodes.size ∧ s ≠ c) → ∀ (pre an' v' : Nat → α),
+        ConsOff h' (fun j' => S (R.node j')) z neg prim an' v' →
+        ∃ an v anm vm, ConsOff h (fun d => S d ∨ d = c) z neg prim an v ∧ ImplMatches h c m sh z neg prim anm vm v ∧
+          (∀ l', l' < h'.net.lines.size → v' l' = glueV h m map v vm (R.line l')) ∧
+          (∀ j', j' < h'.net.nodes.size → R.node j' < h.net.nodes.size → R.node j' ≠ c → an' j' = an (R.node j')) ∧
+          (∀ j x j', j ∉ m.net.io → map.getD j none = some x → j' < h'.net.nodes.size → R.node j' = x → an' j' = anm j) ∧
+          (∀ l, l < h.net.lines.size → (¬ ∃ l', l' < h'.net.lines.size ∧ R.line l' = l) → S (h.net.line l).driver → v l = pre l)) ∧
+      -- (2) host with the cell meaning its implementation ⇒ result
+      (∀ (S : Nat → Prop) (an v anm vm : Nat → α), ConsOff h (fun d => S d ∨ d = c) z neg prim an v →
+        ImplMatches h c m sh z neg prim anm vm v →
+        ∃ an' v', ConsOff h' (fun j' => S (R.node j')) z neg prim an' v' ∧
+          (∀ l', l' < h'.net.lines.size → v' l' = glueV h m map v vm (R.line l')) ∧
+          (∀ j', j' < h'.net.nodes.size → R.node j' < h.net.nodes.size → R.node j' ≠ c → an' j' = an (R.node j')) ∧
+          (∀ j x j', j ∉ m.net.io → map.getD j none = some x → j' < h'.net.nodes.size → R.node j' = x → an' j' = anm j))
+
+/-- **`substitute` preserves the function — general case**: every host that is well-formed up to trailing `None`s (as left by an earlier
+    substitution), every well-formed implementation satisfying `implGenOKB` (ports distinct, no port a flip-flop/latch,
+    driven ports that are read inside are forks — WITH or WITHOUT designated cell), cell neither port nor fork, connected
+    input pins may be IGNORED by the implementation (`noSelfIgnB`: such a pin is not driven by the cell itself), input and
+    output pins may be unconnected, dangling logic is removed: `SubstGenStmt` holds.  Contains the uses of `substitute_sem` /
+    `substitute_sem_removing` and the two cases those leave to the oracle: (a) an ignored connected input pin (`Line.remove()`
+    renumbers the lines in the middle of the connecting loop), (b) no designated cell (`node.remove()` renumbers the nodes). -/
+theorem substitute_sem_general {α : Type _} (h m h' : NNet) (c : Nat) (hw : h.wfNoTrail = true) (mw : m.wf = true)
+    (hc : c < h.net.nodes.size) (hio : h.net.io.contains c = false) (hcf : (h.net.node c).isFork = false)
+    (hok : implGenOKB m = true) (hns : noSelfIgnB h c m = true) (he : substitute h c m = some h')
+    (z : α) (neg : α → α) (prim : String → α → α → α → α → α) : SubstGenStmt h m h' c z neg prim := by
+  obtain ⟨sh, map, R, hs, g⟩ := substitute_general z neg prim h m h' c (WFm.of_wfNoTrail hw) (WF.of_wf mw) hc (by simpa using hio) hcf
+    hok hns he
+  exact ⟨sh, map, R, hs, wfNoTrail_of_WFm g.wf', g.mapM, g.mapInj, g.nodeInj, g.lineInj, g.lineLt, g.io, g.hostNode, g.copyNode,
+    g.hostSurj, g.seqSurj, g.lineSurj, g.hostDrv, g.fw, g.bw⟩
+
+/-! ### non-vacuity of `substitute_sem_general` -/
+/-- (a) a cell that ignores an input pin: `TBUF`-style `input(A,EN) output(Z) Z=BUF1(A)` as `TechLib` builds it (port `EN`, node 1,
+    has no reader) -/
+def exTbuf : NNet :=
+  { net := { nodes := #[⟨"__fork__", [], [some 0]⟩, ⟨"__fork__", [], []⟩, ⟨"__fork__", [some 1], []⟩, ⟨"BUF1", [some 0], [some 1]⟩],
+             lines := #[⟨0, 0, 3, 0⟩, ⟨3, 0, 2, 0⟩], io := [0, 1, 2] },
+    names := #["A", "EN", "Z", "Z"] }
+/-- host: `u = TBUF(a, en)`, `z = u`; the fork `en` also feeds an inverter `n` -/
+def exTbufHost : NNet :=
+  { net := { nodes := #[⟨"input", [], [some 0]⟩, ⟨"input", [], [some 4]⟩, ⟨"TBUF", [some 0, some 1], [some 2]⟩, ⟨"output", [some 2], []⟩,
+                        ⟨"__fork__", [some 4], [some 1, some 3]⟩, ⟨"INV1", [some 3], [some 5]⟩, ⟨"output", [some 5], []⟩],
+             lines := #[⟨0, 0, 2, 0⟩, ⟨4, 0, 2, 1⟩, ⟨2, 0, 3, 0⟩, ⟨4, 1, 5, 0⟩, ⟨1, 0, 4, 0⟩, ⟨5, 0, 6, 0⟩], io := [0, 1, 3, 6] },
+    names := #["a", "en", "u", "z", "en", "n", "y"] }
+/-- hypotheses of `substitute_sem_general` on the `TBUF` example: the enable pin is connected and ignored (`hasIgnoredB`; so
+    `noIgnoredB` fails and `substitute_sem` / `substitute_sem_removing` do not apply); `Line.remove()` deletes line 1, the last
+    line (5) takes its index, the fork `en` is squeezed (line 3 moves from output pin 1 to pin 0) -/
+example : exTbufHost.wfNoTrail = true ∧ exTbuf.wf = true ∧ exTbufHost.net.io.contains 2 = false ∧
+    (exTbufHost.net.node 2).isFork = false ∧ implGenOKB exTbuf = true ∧ noSelfIgnB exTbufHost 2 exTbuf = true ∧
+    hasIgnoredB exTbufHost 2 exTbuf = true ∧ noIgnoredB exTbufHost 2 exTbuf = false ∧
+    (substitute exTbufHost 2 exTbuf).map (fun r => (r.wf, r.net.lines.toList, (r.net.node 2).kind, (r.net.node 4).outs)) =
+      some (true, [⟨0, 0, 2, 0⟩, ⟨5, 0, 6, 0⟩, ⟨2, 0, 3, 0⟩, ⟨4, 0, 5, 0⟩, ⟨1, 0, 4, 0⟩], "BUF1", [some 3]) := by decide +kernel
+
+/-- (b) a cell without output (antenna / filler): `input(A)`; no designated cell, the instance is removed (`node.remove()`: the last
+    node takes its index) together with the line at its ignored pin -/
+def exAnt : NNet := { net := { nodes := #[⟨"__fork__", [], []⟩], lines := #[], io := [0] }, names := #["A"] }
+def exAntHost : NNet :=
+  { net := { nodes := #[⟨"input", [], [some 0]⟩, ⟨"__fork__", [some 0], [some 1, some 2]⟩, ⟨"ANTENNA", [some 1], []⟩, ⟨"output", [some 2], []⟩],
+             lines := #[⟨0, 0, 1, 0⟩, ⟨1, 0, 2, 0⟩, ⟨1, 1, 3, 0⟩], io := [0, 3] },
+    names := #["a", "a", "u", "z"] }
+example : exAntHost.wfNoTrail = true ∧ exAnt.wf = true ∧ exAntHost.net.io.contains 2 = false ∧ (exAntHost.net.node 2).isFork = false ∧
+    implGenOKB exAnt = true ∧ noSelfIgnB exAntHost 2 exAnt = true ∧ (implShape exAnt).map (·.des) = some none ∧ implOKB exAnt = false ∧
+    (substitute exAntHost 2 exAnt).map (fun r => (r.wf, r.kindNames, r.net.lines.toList, r.net.io)) =
+      some (true, [("input", "a"), ("__fork__", "a"), ("output", "z")], [⟨0, 0, 1, 0⟩, ⟨1, 0, 2, 0⟩], [0, 2]) := by decide +kernel
+
+/-- (b) the feed-through `input A -> fork a -> output X` (since the repair of D32 without designated cell): hypotheses of
+    `substitute_sem_general` hold for `exFeedHost`, cell 1 -/
+example : exFeedHost.wfNoTrail = true ∧ exFeed.wf = true ∧ exFeedHost.net.io.contains 1 = false ∧ (exFeedHost.net.node 1).isFork = false ∧
+    implGenOKB exFeed = true ∧ noSelfIgnB exFeedHost 1 exFeed = true ∧ (implShape exFeed).map (·.des) = some none ∧
+    (substitute exFeedHost 1 exFeed).map (fun r => (r.wf, r.kindNames)) =
+      some (true, [("input", "i"), ("output", "o"), ("__fork__", "u~a")]) := by decide +kernel
+
+/-- a host that is well-formed only up to trailing `None`s (the result of `exHostFF` with `exImplFZ`: the `DFF` has `outs = [line, None]`)
+    satisfies the host hypothesis of `substitute_sem_general` — `substitute_sem` needs `wf` -/
+example : ((substitute exHostFF 2 exImplFZ).map fun r => (r.wf, r.wfNoTrail)) = some (false, true) := by decide +kernel
 
 end KV.C10
